@@ -350,7 +350,12 @@ func (s *Sched) Abort(cleanup func()) bool {
 		}
 	}
 	if cleanup != nil {
-		cleanup()
+		// on its own goroutine: with a broken implementation the clean-up
+		// itself may block (a lock that was never released)
+		go func() {
+			defer func() { recover() }()
+			cleanup()
+		}()
 	}
 	done := make(chan struct{})
 	go func() { s.wg.Wait(); close(done) }()
